@@ -351,6 +351,41 @@ fn case_ty<Ty: EdgeType>(ctx: &mut Ctx, rng: &mut Rng, ag: &AG, sources: &[usize
     }
 }
 
+/// A bound, computable before the encoding is chosen, on the `L = |V|*node_bound*M + |V|` the driver
+/// computes from the view (Model/C11Checks.lean `spfaLenC`): `node_bound <= 4n+8` in every encoding
+/// (enc_stable inserts at most 3 dummies per node and one more at the end, enc_matrix_f at most one per
+/// node), and no out-list is longer than `2m` (an undirected self-loop may be listed twice).
+fn len_bound(ag: &AG) -> i64 {
+    let (n, m) = (ag.n as i64, ag.edges.len() as i64);
+    (n * (4 * n + 8) * (2 * m).max(1) + n).max(1)
+}
+
+fn max_abs_cost(ag: &AG) -> i64 {
+    ag.edges.iter().map(|e| e.2.abs()).max().unwrap_or(0)
+}
+
+/// The largest cost magnitude for which the driver's width checks hold for `i32`, the narrowest cost
+/// type the case is run with: `L*Wm < i32::MAX` (`fitSpfaB`); it implies `fitFloydB` (2|V| <= L), the
+/// `i64` instances, and the exact-integer range `2^53` of the `f64` instances and of bellman_ford.
+fn cost_limit(ag: &AG) -> i64 {
+    (i32::MAX as i64 - 1) / len_bound(ag)
+}
+
+/// the generator keeps the costs inside the proved no-overflow range (never needed by the families
+/// below, whose costs stay under 200; the driver re-checks with the exact `L` of the view and answers
+/// `SPECFAIL generator left the proved range` otherwise)
+fn keep_in_range(ag: &mut AG) -> bool {
+    let lim = cost_limit(ag);
+    let mut clamped = false;
+    for e in ag.edges.iter_mut() {
+        if e.2.abs() > lim {
+            e.2 = e.2.clamp(-lim, lim);
+            clamped = true;
+        }
+    }
+    clamped
+}
+
 /// structure-directed weighted graphs: see props/C11.json `rule`
 fn gen_case(rng: &mut Rng, thorough: bool) -> (AG, String, Option<Vec<usize>>) {
     let mut hint: Option<Vec<usize>> = None;
@@ -473,6 +508,23 @@ fn gen_case(rng: &mut Rng, thorough: bool) -> (AG, String, Option<Vec<usize>>) {
         ag.edges.push((a, b, 1));
         ag.edges.push((b, a, -2));
         tags.push_str("+neg2cycle");
+    }
+    // large magnitudes: all costs multiplied by one factor (signs of all walk and cycle costs are
+    // kept), half of the time the largest one that keeps `L*Wm < i32::MAX`, i.e. the edge of the
+    // range for which the i32 instances are proved free of overflow
+    if rng.chance(12) {
+        let (lim, wm) = (cost_limit(&ag), max_abs_cost(&ag));
+        if wm > 0 && lim / wm >= 2 {
+            let kmax = lim / wm;
+            let k = if rng.chance(50) { kmax } else { 2 + rng.below((kmax - 1) as usize) as i64 };
+            for e in ag.edges.iter_mut() {
+                e.2 *= k;
+            }
+            tags.push_str("+scaled");
+        }
+    }
+    if keep_in_range(&mut ag) {
+        tags.push_str("+clamped");
     }
     (ag, tags, hint)
 }
